@@ -80,6 +80,7 @@ type subFont struct {
 	cmapNil bool
 	cmaps   []subCmap
 	np      int
+	pv      []int // private-dict id of every FD (FDs with the same id share ONE *type1.PrivateDict); nil = identity
 	fd      []int
 	encNil  bool
 	enc     [][2]int
@@ -288,6 +289,9 @@ func subParseFont(f Fields) *subFont {
 		}
 	}
 	sf.np = f.Int("np")
+	if f["pv"] != "" {
+		sf.pv = subIntList(f["pv"], ",")
+	}
 	sf.fd = subIntList(f["fd"], ",")
 	if f["enc"] == "-" || f["enc"] == "" {
 		sf.encNil = true
@@ -328,6 +332,9 @@ func subFontArgs(sf *subFont) string {
 		b.WriteString(" cmaps=" + strings.Join(ms, "/"))
 	}
 	fmt.Fprintf(&b, " np=%d fd=%s", sf.np, subJoin(sf.fd, ","))
+	if sf.pv != nil {
+		b.WriteString(" pv=" + subJoin(sf.pv, ","))
+	}
 	if sf.encNil {
 		b.WriteString(" enc=-")
 	} else {
@@ -537,9 +544,17 @@ func subBuild(sf *subFont) *subBuilt {
 			o.Glyphs = append(o.Glyphs, g)
 			b.cffG[g] = i
 		}
+		privObj := map[int]*type1.PrivateDict{}
 		for j := 0; j < sf.np; j++ {
-			o.Private = append(o.Private, &type1.PrivateDict{
-				BlueScale: 0.039625, BlueShift: 7, BlueFuzz: 1, StdHW: float64(10*j + 1)})
+			id := j
+			if sf.pv != nil {
+				id = sf.pv[j]
+			}
+			if privObj[id] == nil {
+				privObj[id] = &type1.PrivateDict{
+					BlueScale: 0.039625, BlueShift: 7, BlueFuzz: 1, StdHW: float64(10*id + 1)}
+			}
+			o.Private = append(o.Private, privObj[id]) // FDs with the same id share the pointer
 		}
 		fd := sf.fd
 		o.FDSelect = func(gid glyph.ID) int { return fd[gid] }
@@ -809,7 +824,7 @@ func subRender(b *subBuilt, res *sfnt.Font) (string, string) {
 			id := "?"
 			if p != nil {
 				j := (int(p.StdHW) - 1) / 10
-				if j >= 0 && j < sf.np && p.StdHW == float64(10*j+1) {
+				if j >= 0 && p.StdHW == float64(10*j+1) {
 					id = strconv.Itoa(j)
 				}
 			}
@@ -1738,6 +1753,19 @@ func subGenFont(c *Ctx) (sf *subFont, depth int, gsubFree bool) {
 			at := subPerm(r, n)
 			for j := 0; j < sf.np; j++ {
 				sf.fd[at[j]] = j
+			}
+		}
+		if sf.np >= 2 && r.Chance(2, 5) {
+			// font dictionaries that share one private dictionary (same pointer at 2-3 FD indices)
+			// but have their own font matrix
+			sf.pv = make([]int, sf.np)
+			for j := range sf.pv {
+				sf.pv[j] = j
+			}
+			a := r.Intn(sf.np)
+			for k := r.Range(1, 2); k > 0; k-- {
+				b := r.Intn(sf.np)
+				sf.pv[b] = sf.pv[a]
 			}
 		}
 		if !r.Chance(1, 10) {
